@@ -30,7 +30,7 @@ SOURCES = [
     dict(name="interpolate", file=PG, sig=r"void ompl::geometric::PathGeometric::interpolate\(unsigned int requestCount\)", rules=IR, loops={1: """
 __CPROVER_assigns(i, count, newStates_size, countG, posG, remainingLength)
 __CPROVER_loop_invariant(0 <= i && i <= n1 && n1 == (int)states__size - 1)
-__CPROVER_loop_invariant(newStates_size <= requestCount && newStates_size + count == requestCount && newStates_size >= (size_t)i)
+__CPROVER_loop_invariant(newStates_size <= requestCount && newStates_size + count == requestCount && newStates_size >= (size_t)i && (i == 0 ==> newStates_size == 0))
 __CPROVER_loop_invariant(count >= states__size - i)
 __CPROVER_loop_invariant(i == n1 ==> count == 1)
 __CPROVER_loop_invariant(G < (size_t)i ? (countG == 1 && posG >= G && posG < newStates_size && (G != 0 || posG == 0)) : countG == 0)
@@ -52,7 +52,7 @@ __CPROVER_decreases(last - j)
 STUBS = ["NS_PUSH_ORIG", "FLOOR_INT", "DIST", "getMotionStates_stub", "NS_PUSH_NEW", "isValid0", "checkMotionIdx"]
 UNITS = [
     dict(name="c17_interpolate_count_order", template="C17/pathgeom.c", entry="h_interpolate", sources=SOURCES, enforce=["pg_interpolate"], replace=STUBS, flags=FLAGS, level="proof",
-         bound="paths of <= 1e6 states, <= 2e6 requested", functions=["ompl::geometric::PathGeometric::interpolate(unsigned int)"], backend="cadical", timeout=900, expect_loops=1,
+         bound="paths of <= 1e6 states, <= 2e6 requested", functions=["ompl::geometric::PathGeometric::interpolate(unsigned int)"], backend="minisat", timeout=900, expect_loops=1,
          confirm=dict(unwind=6, defines={}),
          canaries=[dict(name="budget_off_by_one", where="body:interpolate", rx=r"count -= \(ns \+ 1\);", repl="count -= ns;"),
                    dict(name="last_state_dropped", where="body:interpolate", rx=r"NS_PUSH_ORIG\(\(size_t\)n1\);", repl="")]),
